@@ -44,6 +44,18 @@ Proof. exact group_shares_malformed. Qed.
 Theorem C17_group_shares_total : forall (F : list N -> list N) (ser epoch : bytes), group_shares F ser epoch <> Panic.
 Proof. exact group_shares_total. Qed.
 
+(* end to end: the shares the clients of one measurement obtain from create_share (their `share` fields,
+   newline-separated, in any selection with t distinct points, repeats allowed), handed to group_shares with
+   the clients' epoch, yield exactly the base64 of the key every contributing client holds *)
+Theorem C17_group_of_created : forall (F : list N -> list N), (forall l, wf (F l)) ->
+  forall (m : bytes) (t : N) (epoch : bytes) (xs : list fp) (shs : list ashare),
+  (1 <= t < two32)%N -> wf epoch ->
+  shares_at F (commune_of F t (sample_local F m epoch t)) xs = Ok (Some shs) -> xs <> [] ->
+  (t <= N.of_nat (length (nodup fp_eq_dec xs)))%N ->
+  group_shares F (join_nl (map (fun s => b64_encode (ashare_to_bytes s)) shs)) epoch
+  = Ok (Some (b64_encode (derive_ske_key F (r0 F (sample_local F m epoch t)) epoch))).
+Proof. exact group_of_created. Qed.
+
 (* a different epoch gives the clients' key only if two digests agree in their first 16 bytes *)
 Theorem C17_other_epoch : forall (F : list N -> list N) (r e e' : bytes),
   derive_ske_key F r e = derive_ske_key F r e' ->
